@@ -1205,9 +1205,9 @@ class MeshRegion:
                 )
 
             # calculate curl on x-y grid
+            # Note Bpxy is signed (J = hy / Bpxy), so no factor of bpsign is needed
             self.curl_bOverB_x = (
                 -2.0
-                * self.bpsign
                 * self.Bpxy
                 * self.Btxy
                 * self.Rxy
@@ -1215,7 +1215,7 @@ class MeshRegion:
                 * self.DDY("#Bxy")
             )
             self.curl_bOverB_y = (
-                -self.bpsign * self.Bpxy / self.hy * self.DDX("#Btxy*#Rxy/#Bxy**2")
+                -self.Bpxy / self.hy * self.DDX("#Btxy*#Rxy/#Bxy**2")
             )
             self.curl_bOverB_z = (
                 self.Bpxy**3 / (self.hy * self.Bxy**2) * self.DDX("#hy/#Bpxy")
